@@ -88,14 +88,20 @@ func c01ReaderView(base string, day int64) string {
 }
 
 func c01Run(f []string) string {
-	encName := f[0]
-	level, _ := strconv.Atoi(f[1])
+	// session i is written with encoder i mod n of the `+`-separated list (and the level at the same place)
+	encNames := strings.Split(f[0], "+")
+	var levels []int
+	for _, l := range strings.Split(f[1], "+") {
+		v, _ := strconv.Atoi(l)
+		levels = append(levels, v)
+	}
 	base, err := os.MkdirTemp("", "verif-c01-")
 	if err != nil {
 		panic(err)
 	}
 	defer os.RemoveAll(base)
-	for _, sess := range splitSemi(f[2]) {
+	for si, sess := range splitSemi(f[2]) {
+		encName, level := encNames[si%len(encNames)], levels[si%len(levels)]
 		d := gpfile.NewDirWriter(base, c01Day, gpfile.WithEncoderTypeLevel(encType(encName), level))
 		if err := d.Open(); err != nil {
 			return "err:open-writer"
@@ -176,14 +182,28 @@ func c01Gen(r *Rand, tier string) []Case {
 	}
 	var cs []Case
 	for i := 0; i < n; i++ {
-		encName := Pick(r, []string{"lz4", "lz4", "lz4", "zstd", "zstd", "null"})
-		level := 0
-		if encName == "lz4" {
-			level = Pick(r, []int{0, 1, 4, 9, 12})
-		} else if encName == "zstd" {
-			level = Pick(r, []int{0, 1, 3, 6, 11, 19})
+		// one encoder for the whole day, or (1 in 3) sessions written with different encoders
+		nenc := 1
+		if r.Chance(1, 3) {
+			nenc = 2 + r.Intn(2)
+		}
+		var encNames []string
+		var levels []int
+		for e := 0; e < nenc; e++ {
+			encName := Pick(r, []string{"lz4", "lz4", "lz4", "zstd", "zstd", "null"})
+			level := 0
+			if encName == "lz4" {
+				level = Pick(r, []int{0, 1, 4, 9, 12})
+			} else if encName == "zstd" {
+				level = Pick(r, []int{0, 1, 3, 6, 11, 19})
+			}
+			encNames = append(encNames, encName)
+			levels = append(levels, level)
 		}
 		nsess := 1 + r.Intn(4)
+		if nenc > 1 {
+			nsess = nenc + r.Intn(3)
+		}
 		slot := 0
 		var stored []int64 // timestamps of committed sessions
 		var sess []string
@@ -212,7 +232,7 @@ func c01Gen(r *Rand, tier string) []Case {
 				}
 				for c := 0; c < 8; c++ {
 					data := c01Data(r, c == bigCol || (tier == "thorough" && r.Chance(1, 10)))
-					comp := compressWith(encName, level, data)
+					comp := compressWith(encNames[s%nenc], levels[s%nenc], data)
 					if len(data) > 4096 {
 						nbig++
 						if len(comp) > len(data) {
@@ -228,8 +248,12 @@ func c01Gen(r *Rand, tier string) []Case {
 			}
 			sess = append(sess, listField(ws))
 		}
-		cls := fmt.Sprintf("%s:sessions=%d:big-fallback=%v", encName, nsess, nfallbackBig > 0)
-		cs = append(cs, Case{Line: fmt.Sprintf("C01 %s %d %s", encName, level, semiField(sess)), Class: cls, NonTrivial: nbig > 0})
+		var ls []string
+		for _, l := range levels {
+			ls = append(ls, strconv.Itoa(l))
+		}
+		cls := fmt.Sprintf("%s:sessions=%d:big-fallback=%v", strings.Join(encNames, "+"), nsess, nfallbackBig > 0)
+		cs = append(cs, Case{Line: fmt.Sprintf("C01 %s %s %s", strings.Join(encNames, "+"), strings.Join(ls, "+"), semiField(sess)), Class: cls, NonTrivial: nbig > 0})
 	}
 	return cs
 }
@@ -237,7 +261,7 @@ func c01Gen(r *Rand, tier string) []Case {
 func init() {
 	register(&Prop{
 		ID:   "C01",
-		Rule: "seeded histories of 1-4 open/WriteBlocks*/Close sessions on one day directory with lz4 (levels 0,1,4,9,12), zstd (0..19) or the null encoder; per write 8 column payloads of sizes {0,1,7,64,300,1000} and one of {4095,4096,4097,5000,8192,8193,12000,20000} with contents zeros / random / half-random / periodic; 1 in 12 writes reuses a stored timestamp (rejected, session abandoned without Close). The raw column files and a fresh reader's view are compared byte-for-byte with the model. Non-trivial: at least one payload above the 4096-byte bufio threshold. Distinct = distinct case lines.",
+		Rule: "seeded histories of 1-4 open/WriteBlocks*/Close sessions on one day directory with lz4 (levels 0,1,4,9,12), zstd (0..19) or the null encoder — in 1 of 3 histories the sessions use 2-3 DIFFERENT encoders in turn (a day written by differently configured writers); per write 8 column payloads of sizes {0,1,7,64,300,1000} and one of {4095,4096,4097,5000,8192,8193,12000,20000} with contents zeros / random / half-random / periodic; 1 in 12 writes reuses a stored timestamp (rejected, session abandoned without Close). The raw column files and a fresh reader's view are compared byte-for-byte with the model. Non-trivial: at least one payload above the 4096-byte bufio threshold. Distinct = distinct case lines.",
 		Gen:  c01Gen,
 		Run:  c01Run,
 	})
